@@ -133,6 +133,9 @@ class Shadow:
             s = ''.join(rng.choice(pool) for _ in range(ln)).strip(' ') or 'j'
             if rng.random() < 0.05:
                 s = s[: max(1, ln - 2)] + '\U0001F600'
+            if rng.random() < 0.04:
+                # 17..40 characters outside the BMP: at most 64 characters but more than 64 UCS-2 code units / UTF-8 bytes
+                s = rng.choice(['', 'x']) + rng.choice(['\U0001F600', '\U0001F3B5']) * rng.randint(15, 40) + rng.choice(['', '.mp3'])
             if s not in siblings and s not in ('.', '..') and '/' not in s:
                 return s
         return None
@@ -495,7 +498,21 @@ def directed(cfg):
     out.append(('link-same-name-removed', ops))
     ops2 = [dict(o) for o in ops[:4]] + [{'op': 'rmlink', 'ns': 'i', 'path': '/FOO.;1'}] + [adddir(root, 'M%d' % i, 'm%d' % i) for i in range(4)]
     out.append(('link-same-name-original-removed', ops2))
+    if cfg.get('udf'):
+        # UDF File Identifiers: parent 40 bytes + 2 x 44 + 40 x 48 = 2048 exactly, then the list continues
+        def uf(name, n=1):
+            cid[0] += 1
+            d = {'op': 'addfp', 'cid': cid[0], 'n': n, 'udf': '/docs/' + name}
+            return d
+        ops = [{'op': 'adddir', 'udf': '/docs'}] + [uf('f%04d' % i) for i in range(2)] + [uf('g%08d' % i, n=0) for i in range(40)]
+        ops += [uf('appendix', n=10), uf('latest', n=3000)]
+        out.append(('udf-fid-sector-exact', ops))
+        out.append(('udf-fid-sector-exact-shrunk', ops + [{'op': 'rmfile', 'ns': 'u', 'path': '/docs/g%08d' % i} for i in range(0, 40, 3)]))
     if cfg.get('rr'):
+        # enough long names for a second continuation block; then the block that holds a single entry is emptied
+        many = [addfp(root, 'L%02d.;1' % i, 'l%02d' % i, n=0, rr=chr(97 + i) * 243) for i in range(16)]
+        out.append(('rr-second-block-emptied', many + [rm('rmfile', root, 'L15.;1', '')]))
+        out.append(('rr-first-block-entry-removed', many + [rm('rmfile', root, 'L00.;1', ''), addfp(root, 'L99.;1', 'l99', rr='z' * 243)]))
         for delta in (1, 0, -1, 2):
             ops = [addfp(root, 'AAAA.;1', 'aaaa', rr='a' * 200), addfp(root, 'BBBB.;1', 'bbbb', rr='b' * 210),
                    addfp(root, 'CCCC.;1', 'cccc', rr='c' * 220), rm('rmfile', root, 'BBBB.;1', ''),
